@@ -34,7 +34,8 @@ func drawSize(t *Tape, stream string, kind int, mss int) int {
 }
 
 func (ep *Endpoint) mss() int {
-	m := ep.MTU - ep.W.Overhead(ep.W.FecD > 0 && ep.W.FecP > 0) - 24
+	fc := ep.W.connFEC[ep.Conn.id]
+	m := ep.MTU - ep.W.Overhead(fc[0] > 0 && fc[1] > 0) - 24
 	if m < 1 {
 		m = 1
 	}
@@ -225,6 +226,16 @@ func (ep *Endpoint) CheckRead(buf []byte, n int) {
 	if fl.NoCheck {
 		fl.Read += int64(n)
 		return
+	}
+	ep.W.noteWrongRatioRecovery()
+	if ep.RecoveredUnderWrongRatio {
+		// recorded finding (known_findings.txt): a packet "recovered" under the wrong
+		// FEC ratio is a Reed-Solomon interpolation of genuine packets that keeps
+		// their shared header bytes, passes KCP's checks and enters the stream
+		if fl.Read+int64(n) > fl.Offered || flowCheck(fl.Key, fl.Read, buf[:n]) >= 0 {
+			s.Fail("C01", "stream", "corrupted-after-recovery-under-wrong-fec-ratio", "%s: Read of %d bytes at stream offset %d returned bytes that were never written; this endpoint had counted a FEC recovery while decoding under a ratio different from its peer's", ep.Name, n, fl.Read)
+			return
+		}
 	}
 	if fl.Read+int64(n) > fl.Offered {
 		s.Fail("C01", "stream", "read-beyond-written", "%s: reader has %d bytes but only %d were ever handed to Write", ep.Name, fl.Read+int64(n), fl.Offered)
